@@ -576,6 +576,7 @@ def descriptorFromResponse (resp : Resp) (knownDigest : Bytes) (requireSize requ
   | .ok size =>
     let dg := hget resp.hdr hDigest
     if dg ≠ [] ∧ !isDigest dg then .error .badDigest                    -- client.go:169-172
+    else if knownDigest ≠ [] ∧ !isDigest knownDigest then .error .badDigest  -- client.go: an ill-formed digest argument is refused (fix F32)
     else
       let dg := if knownDigest ≠ [] then knownDigest else dg              -- client.go: the digest asked for wins (fix F31)
       if requireDigest ∧ dg = [] then .error .noDigest                  -- client.go:176-178
